@@ -443,6 +443,7 @@ Definition p256_order : N :=
   115792089210356248762697446949407573529996955224135760342422259061068512044369.
 Definition serial_max : N := 2 ^ 130 - 1.
 
+Definition hello_len : nat := 28.
 (* what identifies a certificate of this package: the ECDSA private scalar,
    the serial number and the 8 raw bytes behind the common name *)
 Record certmat := mkCM { cm_d : N; cm_serial : N; cm_cn : bytes }.
@@ -455,7 +456,8 @@ Section Material.
   Definition label_hello : bytes := bytes_of_string "clientHelloRandomFromSeed".
   Definition label_certs : bytes := bytes_of_string "certsFromSeed".
 
-  Definition hello_random (s : bytes) : bytes := hkdf s label_hello 32.
+  (* handshake.RandomBytesLength = 28: the random part of the DTLS hello random *)
+  Definition hello_random (s : bytes) : bytes := hkdf s label_hello 28.
 
   (* newCertificate on a byte stream: 40 bytes for keygen.ECDSALegacy (P-256),
      17 bytes for rand.Int(2^130-1) (two top bits kept; the all-ones value would be
